@@ -243,8 +243,8 @@ fn free_port() -> u16 {
     loop {
         let n = NEXT_PORT.fetch_add(1, std::sync::atomic::Ordering::SeqCst);
         // below the other engines' ranges (>= 10000) and below the ephemeral range
-        let base = 3000 + (std::process::id() as usize % 7) * 1000;
-        let port = (base + n % 1000) as u16;
+        let base = verif_harness::port_slot(2000);
+        let port = (base + n % 2000) as u16;
         if std::net::TcpListener::bind(("127.0.0.1", port)).is_ok() { return port; }
     }
 }
